@@ -1045,6 +1045,11 @@ class IfBlock(Block, start=IfBeginStmt, end=EndIfStmt):
         elseif_stmts = []
         else_stmt = None
         for stmt in body:
+            if else_stmt is not None and \
+               isinstance(stmt, (ElseIfStmt, ElseStmt)):
+                raise SyntaxError(
+                    stmt.loc_start,
+                    msg='ELSE must be the last clause of an IF block')
             if isinstance(stmt, ElseIfStmt):
                 elseif_stmts.append(stmt)
                 if_blocks.append((cur_if_cond, cur_if_body))
